@@ -4,6 +4,7 @@ import Xp.Drv.C06
 import Xp.Drv.C14
 import Xp.Drv.C16
 import Xp.Drv.C18
+import Xp.Drv.C02Crd
 namespace Xp.C02
 open Xp.IOx
 /-- C02 scenarios are wrapped: {"site": id, "scn": scenario of that site's model}. -/
@@ -15,5 +16,6 @@ def handler : Handler := fun w =>
   | "C14" => Xp.C14.handler (obj w "scn")
   | "C16" => Xp.C16.handler (obj w "scn")
   | "C18" => Xp.C18.handler (obj w "scn")
+  | "crd" => Xp.C02Crd.handler (obj w "scn")
   | s => .error s!"unknown site {s}"
 end Xp.C02
